@@ -90,6 +90,8 @@ class World:
         self.worker = worker
         self.sim = Sim(tape)
         self.listener = FakeListener(self.sim)
+        # further listening sockets (several binds), created by add_listener() before run()
+        self.extra_listeners: list = []
         self.config = Config()
         self.logger = RecLogger(self.sim)
         self.config._log = self.logger  # type: ignore
@@ -115,6 +117,11 @@ class World:
     # -- scenario helpers ----------------------------------------------------------
     def connect(self) -> Conn:
         return self.listener.connect()
+
+    def add_listener(self) -> FakeListener:
+        listener = FakeListener(self.sim)
+        self.extra_listeners.append(listener)
+        return listener
 
     def trigger_shutdown(self) -> None:
         if self.trigger_at is None:
@@ -369,9 +376,11 @@ class World:
 
         hc_run.randint = self._randint
         sim = self.sim
-        sockets = Sockets([], [self.listener], [])  # type: ignore
+        sockets = Sockets([], [self.listener] + self.extra_listeners, [])  # type: ignore
         if self.pre_listen:
             self.listener.listen()
+            for extra in self.extra_listeners:
+                extra.listen()
 
         async def main(loop: aio.SimLoop) -> None:
             if self.use_threads:
